@@ -266,6 +266,15 @@ func hasStruct(v *V) bool {
 	return false
 }
 
+// fieldName names field j of struct type n (k fields): the names F0..Fk-1 rotated by n, so that different types list
+// the same names in different orders and a later type's first field may be a name an earlier type used last.
+func fieldName(n, j, k int) string {
+	if k == 0 {
+		return "F0"
+	}
+	return fmt.Sprintf("F%d", (j+n)%k)
+}
+
 func goType(t *T) reflect.Type {
 	switch t.K {
 	case "slice":
@@ -346,7 +355,7 @@ func render(v *V) string {
 	case "struct":
 		parts := make([]string, len(v.Items))
 		for i, it := range v.Items {
-			parts[i] = fmt.Sprintf("F%d:%s", i, render(it))
+			parts[i] = fmt.Sprintf("%s:%s", fieldName(v.Struct, i, len(v.Items)), render(it))
 		}
 		return "&{" + strings.Join(parts, " ") + "}"
 	}
@@ -378,7 +387,7 @@ func structDecls(defs []StructDef) string {
 			if j > 0 {
 				sb.WriteString(";")
 			}
-			fmt.Fprintf(&sb, " F%d %s", j, f.goName())
+			fmt.Fprintf(&sb, " %s %s", fieldName(i, j, len(d.Fields)), f.goName())
 		}
 		sb.WriteString(" }\n")
 	}
@@ -409,7 +418,7 @@ func literal(v *V, typed bool) string {
 	case "struct":
 		parts := make([]string, len(v.Items))
 		for i, it := range v.Items {
-			parts[i] = fmt.Sprintf("F%d: %s", i, literal(it, false))
+			parts[i] = fmt.Sprintf("%s: %s", fieldName(v.Struct, i, len(v.Items)), literal(it, false))
 		}
 		return fmt.Sprintf("&T%d{%s}", v.Struct, strings.Join(parts, ", "))
 	case "bool":
@@ -471,7 +480,7 @@ func hostValue(vm *goat.VM, v *V) goatlang.Value {
 		base := vm.Get(fmt.Sprintf("main.T%d", v.Struct))
 		var data []goatlang.Value
 		for i, it := range v.Items {
-			data = append(data, goatlang.String(fmt.Sprintf("F%d", i)), hostValue(vm, it))
+			data = append(data, goatlang.String(fieldName(v.Struct, i, len(v.Items))), hostValue(vm, it))
 		}
 		return goatlang.NewStruct(base, data)
 	case "bool":
